@@ -1,6 +1,7 @@
 package checks
 
 import (
+	"bytes"
 	"context"
 	"errors"
 	"fmt"
@@ -215,10 +216,37 @@ func c20Body(c *mc.Ctx, st c20Start, depth int) {
 		}
 	}
 	var hist []string
+	// values the library handed out earlier must not change when the object is used again (no aliasing of internal buffers)
+	type kept struct {
+		what       string
+		live, copy []byte
+	}
+	var handedOut []kept
+	keep := func(what string, b []byte) {
+		if len(b) > 0 {
+			handedOut = append(handedOut, kept{what, b, append([]byte(nil), b...)})
+		}
+	}
+	keepContent := func(what string, ct *signature.EnvelopeContent) {
+		if ct != nil {
+			keep(what+" payload", ct.Payload.Content)
+			keep(what+" signature", ct.SignerInfo.Signature)
+		}
+	}
+	defer func() {
+		for _, k := range handedOut {
+			if !bytes.Equal(k.live, k.copy) {
+				c.Fail(fmt.Sprintf("C20 %s a value returned earlier changed when the object was used again", mediaShort(st.media)), "history %v: %s", hist, k.what)
+				return
+			}
+		}
+	}()
 	signedPayload := map[string]string{"signed-A": `{"request":"A"}`, "signed-B": `{"request":"B"}`}
 	check := func(after string) bool {
 		o1 := c20Observe(env)
 		o2 := c20Observe(env)
+		keepContent("Verify() after "+after, o1.v)
+		keepContent("Content() after "+after, o1.c)
 		c.State(model + " | " + o1.key())
 		sig := func(what string) string {
 			return fmt.Sprintf("C20 %s %s (state %s after %s)", mediaShort(st.media), what, model, after)
@@ -303,6 +331,7 @@ func c20Body(c *mc.Ctx, st c20Start, depth int) {
 				return
 			}()
 			c.Tracef("%s -> err=%v bytes=%d panic=%v", op, err, len(raw), pan)
+			keep("bytes returned by "+op, raw)
 			if pan != nil {
 				c.Fail(fmt.Sprintf("C20 %s panic in Sign(%s)", mediaShort(st.media), op), "history %v: %v", hist, pan)
 				return
